@@ -100,7 +100,7 @@ w('')
 w('### 12.3 Behaviour-preserving refactorings: the false-alarm side\n')
 th = hist.get('twins', {})
 w('A check that alarms on code that still satisfies the property is broken, so the same procedure was run for refactorings. '
-  'Besides my own 58 twins (`gsa/corpus/twins.py`, all silent) three batches were written by sub-agents; each was evaluated once '
+  'Besides my own 58 twins (`gsa/corpus/twins.py`, all silent) three batches (T, U, V) and a last small sample (W, 10 properties) were written by sub-agents; each was evaluated once '
   'before anything was changed, then used to make the rules independent of spelling (§11.5).\n')
 w('| batch | written against | confirmed | first evaluation | final: silent / undecided / false violation |')
 w('|---|---|---|---|---|')
@@ -135,7 +135,10 @@ w('All of the remaining ones end *undecided*: the rule says it cannot read the r
 w('The last full evaluation of the 200 refactorings still found one false violation (C15-V2: `Trajectory.split` cutting the parts as '
   '`self[window.head(minsize)]` through a NamedTuple was reported by C19.R4 as overlapping ranges). The rule was corrected to compare '
   'the operands of `start + width` by value (start of the same part, minimum width over the parts) and to answer undecided for a width '
-  'of unknown origin; C19 was then re-evaluated on all 440 stored changes (`tools/reeval_prop.py C19`: only that entry changed).\n')
+  'of unknown origin; C19 was then re-evaluated on all 440 stored changes (`tools/reeval_prop.py C19`: only that entry changed). The last sample, '
+  'batch W (30 refactorings written against the final rules), gave 26 silent, 3 undecided and once more one false violation on first evaluation '
+  '(C19-W1: the re-basing written as `part[keys] = part[keys] - offset` instead of `-=` was not recognised by C19.R2, which then claimed that '
+  'no re-basing takes place); C19.R2 now reads both spellings and answers undecided when other column writes are present.\n')
 w('What the three rounds show: the first-evaluation silent rate on *unseen* refactorings went 16/74 → 16/60 (a harder batch: the '
   'prompt asked for dataclasses, generators, vectorisation) → 34/60, and definite false violations on unseen refactorings went from '
   'the majority of alarms in batch T to 7 of 60 in batch V; all of those were removed by making the rule decide on values or answer '
@@ -146,7 +149,7 @@ w('### 12.4 How to re-run\n')
 w('```\n/venv/bin/python /verif/tools/mut.py              # 92 single-edit mutants, each must be reported by its property check\n'
   '/venv/bin/python /verif/tools/twins.py -a         # 58 own twins x 20 checks, all must stay silent\n'
   '/venv/bin/python /verif/tools/seedeval.py --kept  # 240 seeded changes -> seeded/RESULTS.json\n'
-  '/venv/bin/python /verif/tools/twineval.py --kept  # 200 independent twins -> twins_indep/RESULTS.json\n'
+  '/venv/bin/python /verif/tools/twineval.py --kept  # 230 independent twins -> twins_indep/RESULTS.json\n'
   '/venv/bin/python /verif/tools/tw.py <dir> C05 C19 # one patch, chosen checks, full report\n```\n'
   'The thorough tier of a property (`check.py Cxx --tier thorough`) runs the quick check, the stub conformance and the property\'s '
   'slice of all four corpora; a corpus entry that no longer behaves as recorded makes the run exit 2.\n')
